@@ -99,17 +99,17 @@ jumble_bijection!(c10_jumble_48_inv, 48, false);
 jumble_bijection!(c10_jumble_129, 129, true);
 //@ {"p":"C10","tier":"experimental","why_experimental":"11.8 M variables (129) / larger (193): out of memory at 14 GB, timeout 3000 s at 26 GB","clause":"(direction jumble(inv(m))) same, length 129 (left saturates at 64, right 65: two G blocks, the second a 1-byte tail)","bounds":"all messages of length 129","assume":"stub: BLAKE2b abstracted","covers":2,"t":1200,"stub":true,"replay":"model","unwindset":{"f4jumble::xor.0":66,"blake2b_simd::Params::hash.0":18,"blake2b_simd::Params::hash.1":196,"blake2b_simd::Params::hash.2":66,"g_round.0":5}}
 jumble_bijection!(c10_jumble_129_inv, 129, false);
-//@ {"p":"C10","tier":"seeded:jumble","clause":"same, length 63 (odd length, left 31 / right 32)","bounds":"all messages of length 63","assume":"stub: BLAKE2b abstracted","covers":2,"t":2400,"stub":true,"replay":"model","unwindset":{"f4jumble::xor.0":66,"blake2b_simd::Params::hash.0":18,"blake2b_simd::Params::hash.1":196,"blake2b_simd::Params::hash.2":66,"g_round.0":5}}
+//@ {"p":"C10","tier":"thorough","clause":"same, length 63 (odd length, left 31 / right 32)","bounds":"all messages of length 63","assume":"stub: BLAKE2b abstracted","covers":2,"t":2400,"stub":true,"replay":"model","unwindset":{"f4jumble::xor.0":66,"blake2b_simd::Params::hash.0":18,"blake2b_simd::Params::hash.1":196,"blake2b_simd::Params::hash.2":66,"g_round.0":5}}
 jumble_bijection!(c10_jumble_63, 63, true);
-//@ {"p":"C10","tier":"seeded:jumble","clause":"(direction jumble(inv(m))) same, length 63 (odd length, left 31 / right 32)","bounds":"all messages of length 63","assume":"stub: BLAKE2b abstracted","covers":2,"t":2400,"stub":true,"replay":"model","unwindset":{"f4jumble::xor.0":66,"blake2b_simd::Params::hash.0":18,"blake2b_simd::Params::hash.1":196,"blake2b_simd::Params::hash.2":66,"g_round.0":5}}
+//@ {"p":"C10","tier":"thorough","clause":"(direction jumble(inv(m))) same, length 63 (odd length, left 31 / right 32)","bounds":"all messages of length 63","assume":"stub: BLAKE2b abstracted","covers":2,"t":2400,"stub":true,"replay":"model","unwindset":{"f4jumble::xor.0":66,"blake2b_simd::Params::hash.0":18,"blake2b_simd::Params::hash.1":196,"blake2b_simd::Params::hash.2":66,"g_round.0":5}}
 jumble_bijection!(c10_jumble_63_inv, 63, false);
 //@ {"p":"C10","tier":"experimental","why_experimental":"7.7 M variables: no verdict within 1200 s / 14 GB when run next to other harnesses","clause":"same, length 128 (left 64 / right 64)","bounds":"all messages of length 128","assume":"stub: BLAKE2b abstracted","covers":2,"t":1200,"stub":true,"replay":"model","unwindset":{"f4jumble::xor.0":66,"blake2b_simd::Params::hash.0":18,"blake2b_simd::Params::hash.1":196,"blake2b_simd::Params::hash.2":66,"g_round.0":5}}
 jumble_bijection!(c10_jumble_128, 128, true);
 //@ {"p":"C10","tier":"experimental","why_experimental":"timeout 1200 s","clause":"(direction jumble(inv(m))) same, length 128 (left 64 / right 64)","bounds":"all messages of length 128","assume":"stub: BLAKE2b abstracted","covers":2,"t":1200,"stub":true,"replay":"model","unwindset":{"f4jumble::xor.0":66,"blake2b_simd::Params::hash.0":18,"blake2b_simd::Params::hash.1":196,"blake2b_simd::Params::hash.2":66,"g_round.0":5}}
 jumble_bijection!(c10_jumble_128_inv, 128, false);
-//@ {"p":"C10","tier":"seeded:jumble","clause":"same, length 65","bounds":"all messages of length 65","assume":"stub: BLAKE2b abstracted","covers":2,"t":2400,"stub":true,"replay":"model","unwindset":{"f4jumble::xor.0":66,"blake2b_simd::Params::hash.0":18,"blake2b_simd::Params::hash.1":196,"blake2b_simd::Params::hash.2":66,"g_round.0":5}}
+//@ {"p":"C10","tier":"thorough","clause":"same, length 65","bounds":"all messages of length 65","assume":"stub: BLAKE2b abstracted","covers":2,"t":2400,"stub":true,"replay":"model","unwindset":{"f4jumble::xor.0":66,"blake2b_simd::Params::hash.0":18,"blake2b_simd::Params::hash.1":196,"blake2b_simd::Params::hash.2":66,"g_round.0":5}}
 jumble_bijection!(c10_jumble_65, 65, true);
-//@ {"p":"C10","tier":"seeded:jumble","clause":"(direction jumble(inv(m))) same, length 65","bounds":"all messages of length 65","assume":"stub: BLAKE2b abstracted","covers":2,"t":2400,"stub":true,"replay":"model","unwindset":{"f4jumble::xor.0":66,"blake2b_simd::Params::hash.0":18,"blake2b_simd::Params::hash.1":196,"blake2b_simd::Params::hash.2":66,"g_round.0":5}}
+//@ {"p":"C10","tier":"thorough","clause":"(direction jumble(inv(m))) same, length 65","bounds":"all messages of length 65","assume":"stub: BLAKE2b abstracted","covers":2,"t":2400,"stub":true,"replay":"model","unwindset":{"f4jumble::xor.0":66,"blake2b_simd::Params::hash.0":18,"blake2b_simd::Params::hash.1":196,"blake2b_simd::Params::hash.2":66,"g_round.0":5}}
 jumble_bijection!(c10_jumble_65_inv, 65, false);
 //@ {"p":"C10","tier":"experimental","why_experimental":"11.8 M variables (129) / larger (193): out of memory at 14 GB, timeout 3000 s at 26 GB","clause":"same, length 193 (right 129: three G blocks)","bounds":"all messages of length 193","assume":"stub: BLAKE2b abstracted","covers":2,"t":2400,"stub":true,"replay":"model","unwindset":{"f4jumble::xor.0":66,"blake2b_simd::Params::hash.0":18,"blake2b_simd::Params::hash.1":196,"blake2b_simd::Params::hash.2":66,"g_round.0":5}}
 jumble_bijection!(c10_jumble_193, 193, true);
